@@ -567,6 +567,115 @@ COQ_BODY = """Fixpoint bad (i : nat) (l : list case_t) : list nat :=
 Eval vm_compute in bad 0%nat cases."""
 
 
+# ------------------------------------------------------------------ direct codec family
+B64 = "ABCDEFGHIJKLMNOPQRSTUVWXYZabcdefghijklmnopqrstuvwxyz0123456789+/"
+INT_CH = "0123456789+-abxe.,/#"      # ASCII only, no whitespace / underscore (CPython's int() accepts those: outside the model)
+
+
+def gen_codec_item(r):
+    k = r.random()
+    if k < .3:
+        return {"prep": gen_value(r)}
+    if k < .5:      # INT
+        e = r.random()
+        if e < .5:
+            n = gen_int(r)
+            s = r.choice(["%d", "%d", "+%d", "0%d", "000%d"]) % abs(n)
+            s = ("-" + s.lstrip("+")) if n < 0 else s
+        elif e < .7:
+            s = r.choice(["", "-", "+", "--1", "1-", "-0", "+0", "00", "12a", "0x10", "1.0", "1e3", "1,0", "-+1", "+-1", "9" * 30])
+        else:
+            s = "".join(r.choice(INT_CH) for _ in range(r.randrange(1, 6)))
+        return {"parse": [K(s), 2]}
+    if k < .62:     # BOOL
+        e = r.random()
+        if e < .6:
+            s = "".join(c.upper() if r.random() < .5 else c for c in r.choice(["true", "false", "true", "tru", "truee"]))
+        else:
+            s = gen_str(r)
+        return {"parse": [K(s), 5]}
+    if k < .85:     # BYTES: canonical shape, any trailing bits; or a length that is no multiple of 4
+        groups = ["".join(r.choice(B64) for _ in range(4)) for _ in range(r.randrange(0, 5))]
+        e = r.random()
+        if e < .3:
+            groups.append("".join(r.choice(B64) for _ in range(2)) + "==")
+        elif e < .6:
+            groups.append("".join(r.choice(B64) for _ in range(3)) + "=")
+        elif e < .7:
+            groups.append("".join(r.choice(B64) for _ in range(r.choice([1, 2, 3]))))     # bad length: binascii.Error
+        return {"parse": [K("".join(groups)), 6]}
+    if k < .93:
+        return {"parse": [K(gen_str(r)), r.choice([3, 1])]}
+    if k < .97:
+        return {"parse": [K(str(ffrom(gen_float(r)))), 4]}
+    return {"parse": [K(gen_str(r)), r.choice([0, 7, 8, 100])]}
+
+
+def explore_codec(ctx, rep, r, n, label):
+    cases = [dict(codec=[gen_codec_item(r) for _ in range(25)]) for _ in range(n)]
+    obs = C.run_driver(ctx, "labels_driver", cases)
+    lits, keep = [], []
+    for c, o in zip(cases, obs):
+        rep.case(c, True)
+        if "_crash" in o:
+            rep.fail("driver crashed", c, observed=o["_crash"], sig=dict(kind="crash"))
+            continue
+        lit = Lit(dict(tasks=[], ops=[]), o)
+        items = []
+        for it, ob in zip(c["codec"], o["codec"]):
+            if "prep" in it:
+                rep.count("codec:prepare:" + it["prep"]["t"])
+                v = it["prep"]
+                # oracle: the statement's round trip, on the implementation alone
+                if v["t"] != "other" and not ob["is_str"]:
+                    rep.fail("prepare_label returned a non-str", c, observed=ob, sig=dict(kind="codec"))
+                items.append("(inl (%s, (%s, %d%%N)))" % (lit.val(v), lit.pstr(ob["s"]), ob["t"]))
+            else:
+                cps, t = it["parse"]
+                rep.count("codec:parse:type%d:%s" % (t, "raise" if "raise" in ob else "value"))
+                if t == 4:
+                    try:
+                        fb = "(Some %d%%Z)" % int(fbits(float(kstr(cps))), 16)
+                    except ValueError:
+                        fb = "None"
+                    lit.extra_fos = getattr(lit, "extra_fos", []) + ["(%s, %s)" % (lit.pstr(cps), fb)]
+                items.append("(inr (%s, %d%%N, %s))" % (lit.pstr(cps), t, "None" if "raise" in ob else "(Some %s)" % lit.val(ob["v"])))
+        sof, fos = lit.tables()
+        fos = "(" + fos + " ++ [" + "; ".join(getattr(lit, "extra_fos", [])) + "])%list"
+        lits.append("((%s, %s, [%s]) : ccase_t)" % (sof, fos, ";\n  ".join(items)))
+        keep.append(c)
+    bad, fails, _ = C.coq_eval(ctx, label, CODEC_HEADER, lits, CODEC_BODY, shard=40)
+    rep.corr(label, len(lits), bad, fails, lambda i: keep[i])
+    rep.traces += len(lits) - len(bad)
+    return bool(bad or fails)
+
+
+CODEC_HEADER = """From Coq Require Import ZArith NArith List Bool. Import ListNotations.
+From TQ Require Import Base64 Labels.
+Open Scope N_scope.
+Definition item := ((lval * (pstr * N)) + (pstr * N * option lval))%type.
+Definition ccase_t := (list (Z * pstr) * list (pstr * option Z) * list item)%type.
+Definition item_ok (sof : Z -> pstr) (fos : pstr -> option Z) (it : item) : bool :=
+  match it with
+  | inl (v, (s, t)) => let p := prepare_label sof v in pstr_eqb (fst p) s && (snd p =? t)
+                       && match v with LOther _ => true | _ => opt_eqb lval_eqb (parse_label fos s t) (Some v) end
+  | inr (s, t, r) => opt_eqb lval_eqb (parse_label fos s t) r
+  end.
+Definition ccase_ok (c : ccase_t) : bool := let '(st, ft, its) := c in forallb (item_ok (tab_sof st) (tab_fos ft)) its."""
+CODEC_BODY = """Fixpoint bad (i : nat) (l : list ccase_t) : list nat :=
+  match l with [] => [] | c :: t => if ccase_ok c then bad (S i) t else i :: bad (S i) t end.
+Eval vm_compute in bad 0%nat cases."""
+
+
+def lower_table_obligation(rep):
+    """str(x).lower() == "true" is modelled as an ASCII case fold; that is CPython's full-Unicode lower() exactly when no
+    non-ASCII code point lowercases into one of t, r, u, e - checked over the whole code space on every run"""
+    bad = [c for c in range(128, 0x110000) if any(ch in "true" for ch in chr(c).lower())]
+    rep.obligations.append(dict(name="cpython:no non-ASCII code point lowercases into t/r/u/e (exhaustive over 0x110000 code points)",
+                                ok=not bad, axioms=[], detail="none" if not bad else "code points %r" % bad[:5]))
+    rep.extra["lower_table_code_points_checked"] = 0x110000 - 128
+
+
 # ------------------------------------------------------------------ run
 def explore(ctx, rep, cases, label, shard=60):
     obs = C.run_driver(ctx, "labels_driver", cases)
@@ -631,6 +740,8 @@ def run(ctx):
     BIG[0] = not ctx.quick
     cases = [gen_case(r) for _ in range(ctx.n(420, 12000))]
     broken = explore(ctx, rep, cases, "main")
+    broken = explore_codec(ctx, rep, ctx.sub_rng("codec"), ctx.n(80, 2000), "codec") or broken
+    lower_table_obligation(rep)
     if (broken or any(not o["ok"] for o in rep.obligations)) and not rep.failures:
         r2 = ctx.sub_rng("search")
         explore(ctx, rep, [gen_case(r2) for _ in range(ctx.n(2500, 20000))], "search")
